@@ -10,13 +10,13 @@ from .rat import F, fl
 
 FLOW_CFG = """SPECIFICATION Spec
 CONSTANTS
-  Shapes <- QShapes
-  Fields <- QFields
+  Shapes <- {T}Shapes
+  Fields <- {T}Fields
   Scales <- QScales
   Steps <- QSteps
   Terms <- QTerms
-  RepGrids <- QRepGrids
-  WorldVecs <- QWorldVecs
+  RepGrids <- {T}RepGrids
+  WorldVecs <- {T}WorldVecs
   EmitCases = {emit}
 {inv}CONSTRAINT Emit
 """
